@@ -377,6 +377,242 @@ fn obs_case(run: &mut Run, street: usize) {
     }
 }
 
+// ---- independent canonical form, written from the property / the documented sort criteria:
+// per suit (pocket cards, board cards, weakest pocket card, weakest board card, strongest pocket
+// card, strongest board card, suit), missing < any rank; suits sorted ascending, the i-th becomes suit i
+fn spec_perm(pocket: u64, public: u64) -> [u32; 4] {
+    fn opt_lo(h: u64) -> u32 { if h == 0 { 0 } else { h.trailing_zeros() / 4 + 1 } }
+    fn opt_hi(h: u64) -> u32 { if h == 0 { 0 } else { (63 - h.leading_zeros()) / 4 + 1 } }
+    let mut keys: Vec<(u32, u32, u32, u32, u32, u32, u32)> = (0..4u32)
+        .map(|s| {
+            let p = pocket & (SUIT0 << s);
+            let b = public & (SUIT0 << s);
+            (p.count_ones(), b.count_ones(), opt_lo(p), opt_lo(b), opt_hi(p), opt_hi(b), s)
+        })
+        .collect();
+    keys.sort();
+    let mut perm = [0u32; 4];
+    for (i, k) in keys.iter().enumerate() {
+        perm[k.6 as usize] = i as u32;
+    }
+    perm
+}
+fn spec_canon(pocket: u64, public: u64) -> (u64, u64) {
+    let p = spec_perm(pocket, public);
+    (relabel(pocket, &p), relabel(public, &p))
+}
+fn spec_is_canonical(pocket: u64, public: u64) -> bool {
+    spec_perm(pocket, public) == [0, 1, 2, 3]
+}
+
+/// k-subsets of `cards` (ascending card list) as bit masks in increasing numeric order, without sorting
+struct Colex {
+    cards: Vec<u8>,
+    idx: Vec<usize>,
+    done: bool,
+}
+impl Colex {
+    fn new(set: u64, k: usize) -> Self {
+        let cards = cards_of(set);
+        let done = k > cards.len();
+        Colex { cards, idx: (0..k).collect(), done }
+    }
+}
+impl Iterator for Colex {
+    type Item = u64;
+    fn next(&mut self) -> Option<u64> {
+        if self.done {
+            return None;
+        }
+        let k = self.idx.len();
+        let out = self.idx.iter().fold(0u64, |a, &i| a | 1u64 << self.cards[i]);
+        // successor in increasing numeric order: bump the lowest index that can move, reset those below
+        let mut i = 0;
+        loop {
+            if i == k {
+                self.done = true;
+                break;
+            }
+            let limit = if i + 1 < k { self.idx[i + 1] } else { self.cards.len() };
+            if self.idx[i] + 1 < limit {
+                self.idx[i] += 1;
+                for j in 0..i {
+                    self.idx[j] = j;
+                }
+                break;
+            }
+            i += 1;
+        }
+        Some(out)
+    }
+}
+
+/// the first `n` items of the real IsomorphismIterator against an enumeration written here
+/// (own pocket and board loops in increasing order, own canonical-form test): item by item the
+/// yielded value must be the next canonical observation of that enumeration; additionally every
+/// item must be a fixed point of the real `Isomorphism::from`, be accepted by the real
+/// `is_canonical`, and no two items of the prefix may lie in the same suit-orbit.
+fn iso_oracle_case(run: &mut Run, street: usize, n: usize) {
+    let op = format!("isomorphism-prefix {} street {street} first {n}", deck_name());
+    run.evaluations += 1;
+    run.count(&format!("iso-oracle street={street}"));
+    let got = catch(move || {
+        IsomorphismIterator::from(street_of(street))
+            .take(n)
+            .map(|iso| {
+                let ob = Observation::from(iso);
+                let again = Observation::from(robopoker::cards::isomorphism::Isomorphism::from(ob));
+                let accepted = robopoker::cards::isomorphism::Isomorphism::is_canonical(&ob);
+                ((u64::from(*ob.pocket()), u64::from(*ob.public())), (u64::from(*again.pocket()), u64::from(*again.public())), accepted)
+            })
+            .collect::<Vec<_>>()
+    });
+    let Some(got) = got else {
+        run.fail("isomorphisms-panic", &op, "an iteration", "panic");
+        return;
+    };
+    run.spec_checked += 1;
+    run.distinct(&("iso-oracle", street, n));
+    // expected sequence
+    let deck = full_deck();
+    let mut want: Vec<(u64, u64)> = Vec::with_capacity(got.len());
+    'outer: for p in Colex::new(deck, 2) {
+        for b in Colex::new(deck & !p, n_board(street)) {
+            if spec_is_canonical(p, b) {
+                want.push((p, b));
+                if want.len() >= n {
+                    break 'outer;
+                }
+            }
+        }
+    }
+    let perms = perms4();
+    let mut keys: HashSet<(u64, u64)> = HashSet::new();
+    let mut last: Option<(u64, u64)> = None;
+    for (i, (x, again, accepted)) in got.iter().enumerate() {
+        if want.get(i) != Some(x) {
+            run.fail("isomorphisms-item-differs-from-enumeration", &format!("{op} item {i}"),
+                &format!("{:?} (next canonical observation in iteration order)", want.get(i)), &format!("{x:?}"));
+            break;
+        }
+        if again != x {
+            run.fail("isomorphisms-item-not-canonical", &format!("{op} item {i}"),
+                &format!("a fixed point of Isomorphism::from, i.e. {again:?}"), &format!("{x:?}"));
+            break;
+        }
+        if !accepted || spec_canon(x.0, x.1) != *x {
+            run.fail("isomorphisms-item-not-canonical", &format!("{op} item {i}"), "a canonical observation", &format!("{x:?}"));
+            break;
+        }
+        if !keys.insert(orbit_min(x.0, x.1, &perms)) {
+            run.fail("isomorphisms-two-representatives-in-one-class", &format!("{op} item {i}"), "a class not yielded before", &format!("{x:?}"));
+            break;
+        }
+        if let Some(l) = last {
+            if l >= *x {
+                run.fail("isomorphisms-not-increasing", &format!("{op} item {i}"), &format!("above {l:?}"), &format!("{x:?}"));
+                break;
+            }
+        }
+        last = Some(*x);
+    }
+    if got.len() != want.len() {
+        run.fail("isomorphisms-prefix-length", &op, &format!("{} items", want.len()), &format!("{} items", got.len()));
+    }
+}
+
+/// `is_canonical` / `Isomorphism::from` on observations the iterator reaches mid-stream (it cannot be
+/// positioned, but these two calls are all it does per observation): random observations, their
+/// canonical forms, and every suit transposition of the canonical form, against the independent
+/// canonical form; plus observations built to have two suits tied on everything but one criterion
+fn canonicity_samples(run: &mut Run, rng: &mut Rng, street: usize, n: usize) {
+    use robopoker::cards::isomorphism::Isomorphism;
+    let deck = full_deck();
+    let nb = n_board(street);
+    let transpositions: Vec<[u32; 4]> = perms4().into_iter().filter(|p| (0..4).filter(|&s| p[s] as usize != s).count() == 2).collect();
+    for i in 0..n {
+        let (p0, b0) = if i % 2 == 0 || nb < 4 {
+            let p = rng.cards(2, deck);
+            (p, rng.cards(nb, deck & !p))
+        } else {
+            // two suits with the same two ranks on the board but for one card, pocket in the other suits
+            let ranks: Vec<u64> = cards_of(deck & SUIT0).iter().map(|c| (*c / 4) as u64).collect();
+            let r = |rng: &mut Rng| ranks[rng.below(ranks.len() as u64) as usize];
+            let (lo, h1, h2) = (r(rng), r(rng), r(rng));
+            let b = 1u64 << (4 * lo) | 1u64 << (4 * lo + 1) | 1u64 << (4 * h1) | 1u64 << (4 * h2 + 1);
+            let p = rng.cards(2, deck & (SUIT0 << 2 | SUIT0 << 3));
+            let extra = rng.cards(nb.saturating_sub(b.count_ones() as usize), deck & !p & !b);
+            (p, b | extra)
+        };
+        if p0.count_ones() != 2 || b0.count_ones() as usize != nb || p0 & b0 != 0 {
+            continue;
+        }
+        let c = spec_canon(p0, b0);
+        let mut cases = vec![(p0, b0), c];
+        for t in &transpositions {
+            cases.push((relabel(c.0, t), relabel(c.1, t)));
+        }
+        for (p, b) in cases {
+            run.evaluations += 1;
+            run.spec_checked += 1;
+            let res = catch(move || {
+                let ob = Observation::from((Hand::from(p), Hand::from(b)));
+                let can = Observation::from(Isomorphism::from(ob));
+                (Isomorphism::is_canonical(&ob), (u64::from(*can.pocket()), u64::from(*can.public())))
+            });
+            let input = format!("{} observation pocket {p} board {b}", deck_name());
+            match res {
+                None => run.fail("canonicalisation-panics", &input, "a canonical form", "panic"),
+                Some((acc, can)) => {
+                    if acc != spec_is_canonical(p, b) {
+                        run.fail("is_canonical-differs-from-specification", &input, &format!("{}", spec_is_canonical(p, b)), &format!("{acc}"));
+                    }
+                    if can != spec_canon(p, b) {
+                        run.fail("canonical-form-differs-from-specification", &input, &format!("{:?}", spec_canon(p, b)), &format!("{can:?}"));
+                    }
+                }
+            }
+        }
+        run.count(&format!("canonicity-sample street={street}"));
+    }
+}
+
+/// one pocket's segment of the class list: the canonical boards for `pocket`, first `n` (real
+/// HandIterator + real is_canonical + real Isomorphism::from vs the model `isopocket` op)
+fn iso_pocket_case(run: &mut Run, street: usize, pocket: u64, n: usize) {
+    use robopoker::cards::isomorphism::Isomorphism;
+    let deck = deck_name();
+    let op = format!("isopocket {deck} {street} {pocket} {n}");
+    run.evaluations += 1;
+    run.count(&format!("iso-pocket street={street}"));
+    let res = catch(move || {
+        let mut count = 0u64;
+        let mut ck = 0u64;
+        for board in HandIterator::from((n_board(street), Hand::from(pocket))) {
+            let ob = Observation::from((Hand::from(pocket), board));
+            if Isomorphism::is_canonical(&ob) {
+                let c = Observation::from(Isomorphism::from(ob));
+                count += 1;
+                ck = mix(mix(ck, u64::from(*c.pocket())), u64::from(*c.public()));
+                if count as usize >= n {
+                    break;
+                }
+            }
+        }
+        (count, ck)
+    });
+    match res {
+        None => {
+            run.line(&op, "panic");
+            run.fail("isomorphisms-panic", &op, "an iteration", "panic");
+        }
+        Some((count, ck)) => {
+            run.line(&op, &format!("n={count} ck={ck}"));
+            run.distinct(&("iso-pocket", street, pocket, n));
+        }
+    }
+}
+
 /// the first `n` items of the real IsomorphismIterator (count + order checksum): the model side runs
 /// the observation-iterator model filtered by the C05 model of `is_canonical`
 fn iso_prefix_case(run: &mut Run, street: usize, n: usize) {
@@ -618,6 +854,24 @@ fn main() {
         // later streets: before the first canonical pocket the model has to test every board of the
         // non-canonical pockets (230,300 turn boards per pocket), so the quick tier stops at the flop
         iso_prefix_case(&mut run, 1, 2_000);
+    }
+    // per-item oracle on prefixes of every street (pairs come first in the iteration), canonicity of
+    // sampled and tie-constructed observations, and model-side class segments of single pockets
+    let npre = if thorough { 400_000 } else { 40_000 };
+    for st in 0..4usize {
+        iso_oracle_case(&mut run, st, npre);
+        canonicity_samples(&mut run, &mut rng, st, if thorough { 40_000 } else { 6_000 });
+    }
+    {
+        let low = full.trailing_zeros() as u64;
+        let pair_hs = 0b1100u64 << low; // the lowest pair in hearts and spades: the first canonical pocket
+        let suited = (1u64 << 3 | 1u64 << 7) << low; // two spades
+        let offsuit = (1u64 << 2 | 1u64 << 7) << low; // heart + higher spade
+        for st in 1..4usize {
+            for &pk in &[pair_hs, suited, offsuit] {
+                iso_pocket_case(&mut run, st, pk, if thorough { 5_000 } else { 400 });
+            }
+        }
     }
     for (st, h) in heavy {
         let op = format!("niso {deck} {st}");
